@@ -159,7 +159,13 @@ Definition parse_int (s : str) : option Z :=
       else option_map Z.of_N (digits_val 0 s)
   end.
 
-Inductive lclass := CStr | CInt (z : Z) | COther.
+Inductive lclass := CStr | CInt (z : Z) | CBool (b : bool) | COther.
+
+(* the lexical space of xsd:boolean: true false 1 0 (anything else is ill-typed: outside the fragment) *)
+Definition parse_bool (s : str) : option bool :=
+  if str_eqb s [116; 114; 117; 101] || str_eqb s [49] then Some true
+  else if str_eqb s [102; 97; 108; 115; 101] || str_eqb s [48] then Some false
+  else None.
 
 Definition lit_class (lex : str) (dt lang : option str) : lclass :=
   match lang with
@@ -171,6 +177,8 @@ Definition lit_class (lex : str) (dt lang : option str) : lclass :=
         if str_eqb d xsd_string then CStr
         else if str_eqb d xsd_integer then
           match parse_int lex with Some z => CInt z | None => COther end
+        else if str_eqb d xsd_boolean then
+          match parse_bool lex with Some b => CBool b | None => COther end
         else COther
     end
   end.
@@ -184,6 +192,7 @@ Definition lit_gt (lex : str) (dt lang : option str) (lex' : str) (dt' lang' : o
   match lit_class lex dt lang, lit_class lex' dt' lang' with
   | COther, _ | _, COther => None
   | CInt x, CInt y => Some (Z.gtb x y)              (* numeric fast path *)
+  | CBool x, CBool y => Some (x && negb y)          (* same datatype, no tag, both valued: True > False *)
   | _, _ =>
       let d := dt_or_string dt in
       let d' := dt_or_string dt' in
@@ -205,6 +214,7 @@ Definition lit_eqv (lex : str) (dt lang : option str) (lex' : str) (dt' lang' : 
   match lit_class lex dt lang, lit_class lex' dt' lang' with
   | COther, _ | _, COther => None
   | CInt x, CInt y => Some (Z.eqb x y)
+  | CBool x, CBool y => Some (Bool.eqb x y)
   | CStr, CStr =>
       if negb (str_eqb (lower (lang_or_empty lang)) (lower (lang_or_empty lang'))) then Some false
       else Some (str_eqb lex lex')
